@@ -1,0 +1,21 @@
+//go:build !verif
+// +build !verif
+
+package runtime
+
+// Verification hook points.  Without the "verif" build tag they are empty and
+// are inlined away.  See verif_on.go.
+
+type verifRuntimeState struct{}
+
+func verifLuaStep(t *Thread, c *LuaCont, pc int16) {}
+func verifGoStep(t *Thread, c *GoCont)             {}
+func verifRequired(m *runtimeContextManager, kind int, amount uint64) {
+}
+func verifHandoff(point string, t *Thread, to *Thread) {}
+func verifGoroutine(event string, t *Thread)           {}
+func verifPoolValues(v []Value)                        {}
+func verifPoolCells(c []Cell)                          {}
+func verifPoolLuaCont(c *LuaCont)                      {}
+func verifPoolGoCont(c *GoCont)                        {}
+func verifCloseStack(t *Thread, c *LuaCont)            {}
